@@ -2,7 +2,7 @@
    Machine: Builder/Lines.v (one definition), Builder/Reader.v (namespace).  All theorems hold for every payload type,
    every dependency reader / print handler (T V D W read_dep emit are universally quantified). *)
 From Coq Require Import ZArith List Bool.
-From PV Require Import Builder.Lines Builder.Basics Builder.LineProofs Builder.Reader Builder.ReaderProofs Builder.Witness.
+From PV Require Import Builder.Lines Builder.Basics Builder.LineProofs Builder.Reader Builder.ReaderProofs Builder.PrintProofs Builder.Witness.
 Import ListNotations.
 Open Scope Z_scope.
 
@@ -107,16 +107,25 @@ Theorem C17_print_twice_refuted : exists (fs : list ufile) lk ts ps, read_ns uni
 Proof. exact print_refuted_twice. Qed.
 Print Assumptions C17_print_twice_refuted.
 
-(* partial: a definition without versioned types that is read as a target gets each of its directives delivered exactly
-   once, in order, with its own path and its own physical line.  Missing for the full statement: definitions that are
-   (also) read as dependencies - there the property is false, see C17_print_refuted. *)
-Theorem C17_print_once_here_partial : forall (T V : Type) fuel (fs : list (file T V)) lk t f w w',
+(* partial, and the exact boundary of F3: in every namespace in which no definition that contains a @print is referred to
+   by another definition, a successful read_namespace delivers exactly the directives of the targets - target by target in
+   reading order, each directive once, with the path of its own file and its own physical line.
+   Missing for the full statement: @print inside referenced definitions - there it is false (C17_print_refuted). *)
+Theorem C17_print_once_here_partial : forall (T V : Type) (fs : list (file T V)),
+  (forall d f, referenced T V fs d -> find_file T V fs d = Some f -> print_free T V f) ->
+  forall lk ts ps, NoDup ts -> read_ns T V fs lk ts = (ps, None) -> ps = flat_map (target_deliveries T V fs) ts.
+Proof. exact prints_outside_f3. Qed.
+Print Assumptions C17_print_once_here_partial.
+
+(* partial, inside arbitrary namespaces: a definition without versioned types that is read as a target gets each of its
+   directives delivered exactly once, in order, with its own path and its own physical line *)
+Theorem C17_print_leaf_target_partial : forall (T V : Type) fuel (fs : list (file T V)) lk t f w w',
   find_file T V fs t = Some f -> f_syntax T V f = None -> f_lines T V f <> [] -> Forall (no_reads T V Z) (f_lines T V f) ->
   memz t (pool w) = false ->
   read_targets T V (S fuel) fs lk [t] w = (w', None) ->
   prints w' = prints w ++ map (fun ns => (f_path T V f, fst ns, snd ns)) (print_dirs T V 1 (f_lines T V f)).
 Proof. exact leaf_target_prints. Qed.
-Print Assumptions C17_print_once_here_partial.
+Print Assumptions C17_print_leaf_target_partial.
 
 (* non-vacuity: the hypotheses of the line theorems are satisfiable and the model computes on them (repaired F2, F1, F8) *)
 Example C17_nonvacuous :
